@@ -49,6 +49,7 @@ FAULTS = [
     "forcing:ends-early+other-time-units-in-second-file", "forcing:starts-late+other-time-units-in-second-file",
     "release:lon-lat-only+grid-without-ll2xy",
     "forcing:ends-one-step-early+record-starts-years-before", "forcing:ends-early+packed-time-coordinate", "forcing:starts-late+packed-time-coordinate",
+    "release:row-with-blank-position", "release:all-half-a-step-before-start", "time:dt-zero-iso", "time:dt-zero-list", "time:dt-negative",
 ]
 PACKED_CONTROL = "control:packed-time-coordinate"  # the same packed files covering the window: must run
 NOLL = "release:lon-lat-only+grid-without-ll2xy"
@@ -160,6 +161,8 @@ def build(base, fault, d):
         rows_slots = [NSTEPS + 1, NSTEPS + 3]
     elif fault == "release:all-exactly-at-stop":
         rows_slots = [NSTEPS]
+    elif fault == "release:all-half-a-step-before-start":  # off the step grid: less than one step before the start is still before the start
+        rows_slots = [-0.5]
     cols = ["release_time", "X", "Y", "Z"]
     if fault == "release:no-position":
         cols = ["release_time", "Z"]
@@ -175,6 +178,8 @@ def build(base, fault, d):
     for k, s in enumerate(rows_slots):
         vals = dict(release_time=world.iso(t(s)), X=3.3 + k, Y=3.5, Z=5.0, lon=5.03, lat=3.25, x=3.3, y=3.5)
         lines.append(" ".join(str(vals[c]) for c in cols))
+    if fault == "release:row-with-blank-position":  # a later row that gives the time and one number only: no position (the parser fills in NaN)
+        lines.insert(2, f"{world.iso(t(1))} 4.4")
     if fault == "release:empty-file":
         lines = lines[:1]
     (d / "r.rls").write_text("\n".join(lines) + "\n")
@@ -202,6 +207,12 @@ def build(base, fault, d):
         del conf["time"]["dt"]
     elif fault == "time:dt-zero":
         conf["time"]["dt"] = 0
+    elif fault == "time:dt-zero-iso":
+        conf["time"]["dt"] = "PT0S"
+    elif fault == "time:dt-zero-list":
+        conf["time"]["dt"] = [0, "s"]
+    elif fault == "time:dt-negative":
+        conf["time"]["dt"] = -DT
     elif fault == "time:stop-on-wrong-side":
         conf["time"]["stop"] = world.iso(t(-NSTEPS))
     elif fault == "forcing:no-file":
@@ -289,7 +300,7 @@ def run_subprocess(base):
     for f in base["faults"]:
         todo += [NOLL_CONTROL, f] if f == NOLL else [PACKED_CONTROL, f] if f == "forcing:ends-early+packed-time-coordinate" else [f]
     for fault in todo:
-        if fault.startswith("release:all-before-start") and b["cont"]:
+        if (fault.startswith("release:all-before-start") or fault == "release:all-half-a-step-before-start") and b["cont"]:
             continue
         d = util.scratch("c20s")
         path = build(b, fault, d)
@@ -341,7 +352,7 @@ def run_case(base):
     for fault in FAULTS[1:]:
         if only and only != fault:
             continue
-        if fault.startswith("release:all-before-start") and b["cont"]:
+        if (fault.startswith("release:all-before-start") or fault == "release:all-half-a-step-before-start") and b["cont"]:
             continue  # not a fault: a continuous release keeps releasing the rows of the latest file time before start
         ctl = NOLL_CONTROL if fault == NOLL else PACKED_CONTROL if fault == "forcing:ends-early+packed-time-coordinate" else None
         if ctl:
